@@ -45,7 +45,7 @@ IMPORTS = ('From Coq Require Import ZArith List. Import ListNotations. Open Scop
            'From Sky Require Import Result M_Alias.\n')
 
 FID = {'ra': 0, 'dec': 1, 'time': 2, 'azi': 3, 'zen': 4, 'sin_dec': 5, 'run': 6, 'ang_err': 7, 'log_energy': 8,
-       'user_q': 9, 'true_ra': 10, 'true_dec': 11, 'true_energy': 12, 'mcweight': 13, 'mc_user': 14,
+       'user_q': 9, 'true_ra': 10, 'true_dec': 11, 'true_energy': 12, 'mcweight': 13, 'mc_user': 14, 'bkg_prob': 16,
        'sin_true_dec': 15, 'pre_a': 20, 'stat_a': 21, 'stat_b': 22, 'gfp_w': 23, 'comp_gp': 30, 'comp_x': 31}
 TWO_PI_BITS = 4618760256179416344
 
@@ -226,6 +226,8 @@ def make_tables(rng, n, mc, ra_dt):
                  true_energy=r.uniform(100, 1e5, n), mcweight=r.uniform(1, 2, n),
                  mc_user=r.randint(0, 100, n).astype(np.int16))
         d['sin_true_dec'] = np.sin(d['true_dec'])
+        w_ = r.uniform(0.5, 1.5, n)
+        d['bkg_prob'] = (w_ / w_.sum()).astype(np.float32)      # a pre-computed user field; float64 sum != 1
     return DFRA(d, copy=False)
 
 
@@ -461,7 +463,14 @@ def build(ctx, cfgd, enc=None, case=None):
                 pre = AllEventSelectionMethod(shg_mgr)
             elif dc['presel'] == 'mask':
                 pre = MaskESM(shg_mgr, -0.6, 'presel')
-            kw = dict(get_event_prob_func=lambda dataset, data, events: np.ones(len(events)) / max(len(events), 1),
+            if dc.get('prob') == 'stored' and dc['presel'] != 'mask':
+                # the callback hands out a STORED field of data.mc (arguments are inputs; seeded C07-8)
+                def prob_func(dataset, data, events):
+                    return data.mc['bkg_prob']
+            else:
+                def prob_func(dataset, data, events):
+                    return np.ones(len(events)) / max(len(events), 1)
+            kw = dict(get_event_prob_func=prob_func,
                       get_mean_func=lambda dataset, data, events: float(dc['mean']),
                       data_scrambler=scr, keep_mc_data_fields=['mcweight', 'mc_user'],
                       pre_event_selection_method=pre, cfg=cfg)
@@ -1063,7 +1072,7 @@ def gen_cfg(rng, i_case):
                    'tdm': {'index': rng.choice([None, None, 'time', 'run', 'dec']),
                            'pre': rng.choice([None, None, 'ok']), 'static': static,
                            'esm': rng.choice([None, 'all', 'mask']), 'gfp': rng.random() < 0.5},
-                   'comps': rng.choice(['two', 'two', 'none'])})
+                   'comps': rng.choice(['two', 'two', 'none']), 'prob': rng.choice([None, None, 'stored'])})
     return {'seed': rng.randrange(10 ** 6), 'ds': ds, 'valid_range': rng.random() < 0.5}
 
 
@@ -1116,6 +1125,10 @@ def corpus_sessions():
         {'cfg': {'seed': 13, 'ds': [dsc(bkg='mc', scr='uniform', presel=None), dsc(bkg='comp', scr='coretime')],
                  'valid_range': False},
          'calls': ['bkg', 'sig', 'bkg', 'sig', 'bkg'], 'mean_sig': 5},
+        # probability callback returning a stored MC field (seeded C07-8), MC sampling and composite method
+        {'cfg': {'seed': 14, 'ds': [dsc(bkg='mc', scr='uniform', presel=None, prob='stored'),
+                                    dsc(bkg='comp', scr=None, presel='all', prob='stored')], 'valid_range': False},
+         'calls': ['bkg', 'bkg', 'trial', 'unblind'], 'mean_sig': 2},
         # composite method with an EMPTY component dictionary, with and without scrambler (audit mutation 2)
         {'cfg': {'seed': 11, 'ds': [dsc(bkg='comp', scr='uniform', comps='none'), dsc(bkg='comp', scr=None, comps='none')],
                  'valid_range': False},
@@ -1266,6 +1279,16 @@ def time_ra_probe(ctx):
     mjds = np.array([58000.0 + 0.37 * j + 0.0123 * j * j for j in range(len(deltas))])
     theta = azi_to_ra_transform(np.zeros(len(mjds)), mjds)          # sidereal angle of each time, in [0, 2 pi)
     azi = np.mod(theta + np.array(deltas), two_pi)                   # ra = 2 pi - delta (up to rounding), 0 for delta 0
+    # azimuth 1, 2, 3 ulp above the UNWRAPPED sidereal angle (formula of azi_to_ra_transform recomputed here): the angle
+    # before the wrap is a tiny negative number, whose modulo rounds to exactly 2 pi (seeded C07-7)
+    mj2 = np.array([58003.21 + 0.53 * j for j in range(9)])
+    unwrapped = 2.54199002505 + 2 * np.pi * ((mj2 / 0.997269566) % 1)
+    az2 = unwrapped.copy()
+    for j in range(9):
+        for _ in range(1 + j % 3):
+            az2[j] = np.nextafter(az2[j], np.inf)
+    mjds = np.concatenate([mjds, mj2])
+    azi = np.concatenate([azi, az2])
     n = len(mjds)
 
     class TG(TimeGenerationMethod):
